@@ -203,23 +203,30 @@ Proof. unfold C14_DataGen.rn2data_r, C14_DataGen.rn2data, C14_DataGen.last_posit
    r >= 0 and every vector with at least one positive entry (no other condition: entries may be negative, the sum
    arbitrary) the returned outcome is in range and has positive probability. *)
 Section Rounded.
-Context (add : F -> F -> F) (add_nonpos : forall c p, p <= 0 -> add c p <= c).
-Lemma rn2d_r_valid t : forall pre c r lp, c <= r -> posidx (pre ++ t) lp \/ has_pos t ->
+(* rep: the set of values the accumulator can take (e.g. the numbers representable in the floating-point format); it contains
+   0 and is closed under add; the monotonicity fact is needed on rep only *)
+Context (add : F -> F -> F) (rep : F -> Prop) (rep0 : rep 0) (rep_add : forall c p, rep c -> rep (add c p))
+        (add_nonpos : forall c p, rep c -> p <= 0 -> add c p <= c).
+Lemma rn2d_r_valid_rep t : forall pre c r lp, rep c -> c <= r -> posidx (pre ++ t) lp \/ has_pos t ->
   posidx (pre ++ t) (rn2d_r F add t c r (length pre) lp).
-Proof. induction t as [|p t IH]; intros pre c r lp Hc Hq; cbn [C14_DataGen.rn2d_r].
+Proof. induction t as [|p t IH]; intros pre c r lp Hrep Hc Hq; cbn [C14_DataGen.rn2d_r].
   - destruct Hq as [Hq|(j & Hj & _)]; [exact Hq|cbn in Hj; lia].
   - destruct (flt F r (add c p)) eqn:E.
     + exists (length pre). split; [reflexivity|]. split; [rewrite app_length; cbn; lia|]. rewrite nth_mid.
       destruct (flt F 0 p) eqn:E0; [now apply flt0_true|]. exfalso. apply flt_true in E. apply flt_false in E0.
-      apply (lt_irrefl_le _ _ E). exact (k_trans F _ _ _ (add_nonpos c p E0) Hc).
-    + apply flt_false in E. rewrite <- (len_snoc pre p), <- snoc_assoc. apply IH; [exact E|]. rewrite snoc_assoc.
+      apply (lt_irrefl_le _ _ E). exact (k_trans F _ _ _ (add_nonpos c p Hrep E0) Hc).
+    + apply flt_false in E. rewrite <- (len_snoc pre p), <- snoc_assoc. apply IH; [now apply rep_add|exact E|]. rewrite snoc_assoc.
       destruct (flt F 0 p) eqn:E0.
       * left. exists (length pre). split; [reflexivity|]. split; [rewrite app_length; cbn; lia|]. rewrite nth_mid. now apply flt0_true.
       * destruct Hq as [Hq|(j & Hj & Hp)]; [left; exact Hq|]. destruct j as [|j]; [apply flt0_true in Hp; cbn [nth] in Hp; congruence|].
         right. exists j. split; [cbn in Hj; lia|exact Hp]. Qed.
-Theorem rn2data_r_valid ps r : 0 <= r -> has_pos ps -> posidx ps (rn2data_r F add ps r).
-Proof. intros Hr Hp. unfold C14_DataGen.rn2data_r. exact (rn2d_r_valid ps [] 0 r _ Hr (or_intror Hp)). Qed.
+Theorem rn2data_r_valid_rep ps r : 0 <= r -> has_pos ps -> posidx ps (rn2data_r F add ps r).
+Proof. intros Hr Hp. unfold C14_DataGen.rn2data_r. exact (rn2d_r_valid_rep ps [] 0 r _ rep0 Hr (or_intror Hp)). Qed.
 End Rounded.
+(* the special case rep = everything *)
+Theorem rn2data_r_valid (add : F -> F -> F) (add_nonpos : forall c p, p <= 0 -> add c p <= c) ps r :
+  0 <= r -> has_pos ps -> posidx ps (rn2data_r F add ps r).
+Proof. exact (rn2data_r_valid_rep add (fun _ => True) I (fun _ _ _ => I) (fun c p _ H => add_nonpos c p H) ps r). Qed.
 
 Lemma add_nonpos_exact c p : p <= 0 -> c + p <= c.
 Proof. intros H. apply (proj2 (le_sub F (c + p) c)). replace (c - (c + p)) with (0 - p) by ring. apply (proj1 (le_sub F p 0)). exact H. Qed.
